@@ -36,7 +36,8 @@ THEOREMS = [
     dict(name="Snow.C08.E_is_riemann_sum_2D", clause="2D: E_i = sum_{j<=i} K_v,j dt", strength="full"),
     dict(name="Snow.C08.Kv_is_quadrature_2D", clause="2D: K_v = simpson(2 pi simpson(r J, r), z), J = kb (T_eq_l - T)^b on the supercooled mask", strength="full"),
     dict(name="Snow.C08.E_mono_2D", clause="2D: E never decreases (weights w_z 2 pi r w_r >= 0)", strength="full"),
-    dict(name="Snow.C08.Tnuc_stats_order_2D", clause="2D: min <= mean <= max", strength="full"),
+    dict(name="Snow.C08.Tnuc_stats_order_2D", clause="2D: min <= mean <= max, given that the field of the break step is non-empty (hypothesis hsz; discharged in Tnuc_stats_order_of_run_2D)", strength="full"),
+    dict(name="Snow.C08.Tnuc_stats_order_of_run_2D", clause="2D: min <= mean <= max for every completed run on a grid with Nz, Nr > 0 (field size Nz*Nr is a loop invariant)", strength="full"),
     dict(name="Snow.C08.Tnuc_kin_bounds_2D", clause="2D: min <= T_kin <= T_eq_l when K_v > 0", strength="full"),
     dict(name="Snow.C08.Tnuc_kin_else_2D", clause="2D: T_kin = 273.15 K when K_v <= 0", strength="full"),
     dict(name="Snow.C08.stats_at_nucleation_instant_2D", clause="2D: the four temperatures and t_nuc are those of the field of the break step", strength="full"),
@@ -86,7 +87,7 @@ def regenerate():
     gentie.regenerate("0D")
     gentie.regenerate("1D")
 
-LEVEL_TEXT = ("Lean 4 theorems about executable models of _run_0D and _run_1D (exact real arithmetic), tied to /repo on every run by a differential check (bit-for-bit agreement observed except np.mean). Proved in full for 0D and 1D: nucleation at the first step with F_nuc > F_rand and at no other (fold invariant of the cooling loop); E is the Riemann sum of K_v dt with K_v = J V (0D) / A simpson(J_z, z) (1D) over the supercooled mask; E is non-decreasing; the weights of scipy's simpson on a uniform grid are derived from its formula for both parities (odd: h/3[1,4,2,...,4,1]; even: last three 5h/4, h, 5h/12) and are non-negative; min <= mean <= max; min <= T_kin <= T_eq_l when K_v > 0 and T_kin = 273.15 K otherwise; the four numbers are those of the field of the break step. The same clauses are proved for the 2D model (SnowModel/Snowing2D.lean, K_v = simpson(2 pi simpson(r J, r), z), weights w_z 2 pi r w_r >= 0) through a bridge that identifies its cooling loop with the generic fold; the 2D model is tied to /repo by comparing real 2D runs (nucleation step, t_nuc, the four temperatures) and the clauses are also evaluated on the real 2D fields. The per-step formulas of the 0D and 1D hand models are additionally tied by REGENERATION: harness/translate.py extracts them from /repo on every run and SnowProofs/Props/GenTie proves the generated text equal to the hand model (a changed formula breaks that proof).")
+LEVEL_TEXT = ("Lean 4 theorems about executable models of _run_0D and _run_1D (exact real arithmetic), tied to /repo on every run by a differential check (bit-for-bit agreement observed except np.mean). Proved in full for 0D and 1D: nucleation at the first step with F_nuc > F_rand and at no other (fold invariant of the cooling loop); E is the Riemann sum of K_v dt with K_v = J V (0D) / A simpson(J_z, z) (1D) over the supercooled mask; E is non-decreasing; the weights of scipy's simpson on a uniform grid are derived from its formula for both parities (odd: h/3[1,4,2,...,4,1]; even: last three 5h/4, h, 5h/12) and are non-negative; min <= mean <= max; min <= T_kin <= T_eq_l UNCONDITIONALLY for a stochastic nucleation (at the first crossing E_i > E_{i-1}, hence K_v dt > 0: Kv_pos_at_crossing, given F_rand >= 0 and dt > 0; the code's else-branch T_kin = 273.15 K for K_v <= 0 is stated separately and can only occur under controlled nucleation); the four numbers are those of the field of the break step. The same clauses are proved for the 2D model (SnowModel/Snowing2D.lean, K_v = simpson(2 pi simpson(r J, r), z), weights w_z 2 pi r w_r >= 0) through a bridge that identifies its cooling loop with the generic fold (coolLoop_eq, run2D_cool links S2D.run to the proof-side loop), including the unconditional order of the four temperatures (Tnuc_order_of_stochastic_run_2D); the 2D model is tied to /repo by comparing real 2D runs (nucleation step, t_nuc, the four temperatures) and the clauses are also evaluated on the real 2D fields. The per-step formulas of the 0D and 1D hand models are additionally tied by REGENERATION: harness/translate.py extracts them from /repo on every run and SnowProofs/Props/GenTie proves the generated text equal to the hand model (a changed formula breaks that proof).")
 
 TIE = 1e-9
 
